@@ -165,7 +165,7 @@ Proof. exact XInv_init. Qed.
    duration, added partitions (ExpandGroups), stores creating shards and indexes, retention passes of any partition at
    any clock reading, aborted passes, restarts - when the index-group choice is the repaired one; the pruning variant
    does not matter. *)
-Theorem C14_index_cover_all_traces : forall repP es ps n, XInv (x_cat (fst (xrun true repP (xworld0 ps n) es))).
+Theorem C14_index_cover_all_traces : forall repP clip es ps n, XInv (x_cat (fst (xrun true repP clip (xworld0 ps n) es))).
 Proof. intros. apply XInv_xrun. apply XInv_init. Qed.
 Print Assumptions C14_index_cover_all_traces.
 
@@ -173,19 +173,19 @@ Print Assumptions C14_index_cover_all_traces.
    catalogue, whenever the duration info of an index makes it expired at a clock reading `now`, every shard whose
    index it is - on any partition - is expired at `now` under its policy's duration in force. So the retention pass
    deletes an index only when every shard referring to it is expired (and is deleted by the same rule). *)
-Theorem C14_index_deleted_only_after_its_shards : forall repP es ps n pt fi sg s now,
-  let c := x_cat (fst (xrun true repP (xworld0 ps n) es)) in
+Theorem C14_index_deleted_only_after_its_shards : forall repP clip es ps n pt fi sg s now,
+  let c := x_cat (fst (xrun true repP clip (xworld0 ps n) es)) in
   In fi (index_infos c pt) -> In sg (c_sgs c) -> In s (sg_shards sg) -> cs_ix s = si_id fi ->
   expired (si_d fi) (si_end fi) now = true ->
   expired (pol_d c (sg_rp sg)) (sg_end sg) now = true.
-Proof. intros repP es ps n pt fi sg s now c. apply infos_expiry. apply XInv_xrun. apply XInv_init. Qed.
+Proof. intros repP clip es ps n pt fi sg s now c. apply infos_expiry. apply XInv_xrun. apply XInv_init. Qed.
 Print Assumptions C14_index_deleted_only_after_its_shards.
 
 (* non-vacuity: a reachable catalogue (repaired choice) in which one index group serves two shard groups, after an
    ALTER that lengthened the shard duration gave the third group its own, longer index group *)
 Example C14_index_cover_example :
   let H := 3600000000000 in
-  let c := x_cat (fst (xrun true true (xworld0 [{| xp_id := 1; xp_d := 0; xp_sgd := H; xp_igd := 4 * H |}] 2)
+  let c := x_cat (fst (xrun true true false (xworld0 [{| xp_id := 1; xp_d := 0; xp_sgd := H; xp_igd := 4 * H |}] 2)
                         [XCreate 1 (472140 * H); XCreate 1 (472141 * H); XAlter 1 None (Some (12 * H)) None; XCreate 1 (472142 * H)])) in
   map (fun g => (sg_id g, map cs_ix (sg_shards g))) (c_sgs c) = [(1, [1; 2]); (2, [1; 2]); (3, [3; 4])] /\
   map (fun g => (ig_id g, ig_end g - ig_start g)) (c_igs c) = [(1, 4 * H); (2, 12 * H)].
@@ -239,7 +239,7 @@ Print Assumptions C14_index_deleted_only_with_its_shards.
    the second shard deletes the first shard and the index now, the second shard only at the next pass *)
 Example C14_node_ok_example :
   let H := 3600000000000 in
-  let w := fst (xrun true true (xworld0 [{| xp_id := 1; xp_d := H; xp_sgd := H; xp_igd := 2 * H |}] 1)
+  let w := fst (xrun true true false (xworld0 [{| xp_id := 1; xp_d := H; xp_sgd := H; xp_igd := 2 * H |}] 1)
                   [XCreate 1 (472140 * H); XCreate 1 (472141 * H); XMat 1 true; XMat 2 false]) in
   NodeOK w 0 /\ XInv (x_cat w) /\
   l_ixs (snd (xtick true w 0 (472142 * H + H + 1) (472142 * H + H + 1))) = [1] /\
@@ -267,21 +267,39 @@ Qed.
    of that premise by no longer being listed at all. The corresponding fact for indexes (the end time a node holds
    for an index vs. the catalogue's index-group end) is not proved: it is compared with the running engine after every
    event of every trace (the engine's index end is an observable of the correspondence). *)
-Theorem C14_node_agrees_all_traces : forall repP es ps n s sg cs,
-  let w := fst (xrun true repP (xworld0 ps n) es) in
+Theorem C14_node_agrees_all_traces : forall repP clip es ps n s sg cs,
+  let w := fst (xrun true repP clip (xworld0 ps n) es) in
   In s (x_shards w) -> xs_id s <= c_maxsh (x_cat w) /\
   (In sg (c_sgs (x_cat w)) -> In cs (sg_shards sg) -> cs_id cs = xs_id s ->
    cs_pt cs = xs_pt s /\ cs_ix cs = xs_ix s /\ sg_end sg = xs_end s /\ sg_rp sg = xs_rp s).
 Proof.
-  intros repP es ps n s sg cs w Hs.
-  destruct (NodeAgree_xrun repP es (xworld0 ps n) (XInv_init ps n) (NodeAgree_init ps n) s Hs) as (B & A).
+  intros repP clip es ps n s sg cs w Hs.
+  destruct (NodeAgree_xrun repP clip es (xworld0 ps n) (XInv_init ps n) (NodeAgree_init ps n) s Hs) as (B & A).
   split; [exact B|]. intros H1 H2 E. apply (A sg cs H1 H2 E).
 Qed.
 Print Assumptions C14_node_agrees_all_traces.
 
 Example C14_node_agrees_example :
   let H := 3600000000000 in
-  let w := fst (xrun true true (xworld0 [{| xp_id := 1; xp_d := H; xp_sgd := H; xp_igd := 2 * H |}] 2)
+  let w := fst (xrun true true false (xworld0 [{| xp_id := 1; xp_d := H; xp_sgd := H; xp_igd := 2 * H |}] 2)
                   [XCreate 1 (472140 * H); XMat 1 true; XExpand; XAlter 1 (Some (2 * H)) None None; XTick 0 (472141 * H + 2 * H + 1) (472141 * H + 2 * H + 5)]) in
   map xs_id (x_shards w) = [2] /\ map (fun g => map cs_id (sg_shards g)) (c_sgs (x_cat w)) = [[1; 2; 3]].
+Proof. vm_compute. auto. Qed.
+
+(* -- clipped shard groups (repair props/C16/fix3.patch) -- *)
+(* Every theorem above that runs over traces (C14_index_cover_all_traces, C14_index_deleted_only_after_its_shards,
+   C14_node_agrees_all_traces) is quantified over `clip`: it holds both when a new shard group takes the whole cell of
+   the current shard duration and when it is cut back to its live neighbours (the index group is then looked up /
+   created for the clipped end). The prune, node-pass and admission theorems do not go through group creation.
+   Non-vacuity: after ALTER .. SHARD DURATION 12h the second group of the history below is clipped at the end of the
+   first one, and still shares the first group's 4h index group, which covers it. *)
+Example C14_clip_example :
+  let H := 3600000000000 in
+  let ps := [{| xp_id := 1; xp_d := H; xp_sgd := H; xp_igd := 4 * H |}] in
+  let es := [XCreate 1 (472140 * H + 100); XAlter 1 (Some (168 * H)) (Some (12 * H)) None; XCreate 1 (472141 * H + 100);
+             XCreate 1 (472139 * H + 100)] in
+  map (fun g => (sg_id g, sg_start g - 472140 * H, sg_end g - 472140 * H)) (c_sgs (x_cat (fst (xrun true true true (xworld0 ps 1) es))))
+    = [(1, 0, H); (2, H, 12 * H); (3, - (12 * H), 0)] /\
+  map (fun g => (sg_id g, sg_start g - 472140 * H, sg_end g - 472140 * H)) (c_sgs (x_cat (fst (xrun true true false (xworld0 ps 1) es))))
+    = [(1, 0, H); (2, 0, 12 * H); (3, - (12 * H), 0)].
 Proof. vm_compute. auto. Qed.
